@@ -46,7 +46,8 @@ META = {
     'decided': ['D1 ownership of the pending table',
                 'D2 register-before-send with timer',
                 'D3 completion => removed and timer cancelled',
-                'D4 correlation keys', 'D5 error discipline',
+                'D4 correlation keys', 'D5 error discipline (incl. no value '
+                'delivered before the declared signature was compared)',
                 'D7 reply-value convention on recognised paths'],
     'undecided': ['the actual interleavings of replies and deadlines',
                   'reply-value convention on paths whose tests the analyser '
